@@ -88,6 +88,6 @@ def run(ctx):
             corr(ctx, res2, "c08_cache_mismatches", "admincache Get/Put on %s op traces under an injected clock = Model.AdminCache.crun" % res2.get("c08_cache_ntraces", "?"), "CasesC08Cache.idx")
     ctx.assumptions = ["the requests of the matrix carry no Origin/Referer header (CSRF handling belongs to C06)",
                        "one IsAdminUser call per request decides the verdict (profileHandler asks a second time only to decide whether to show a link)"]
-    unproved = ["refreshRoleRequestingCert (renewal by the certificate holder itself) is outside this check (C11/C06)"]
+    unproved = ["refresh endpoint: whether the peer address lies inside the presented certificate's netblocks is C11's subject (a certificate presented from outside is 'no credential' in this model); revocation of the presented certificate is not modelled"]
     return ctx.finish("bin/build-coq; coqc Audit_Props_C08/Obl_C08/CasesC08/CasesC08Cache (lib/checks/c08.py); go test -overlay TestVerif_C08 (cmd/keymasterd), TestVerif_C08Cache (keymasterd/admincache)",
                       COMMON_TRUSTED + TRUSTED, unproved)
